@@ -145,6 +145,9 @@ pub fn run_c03(p: &mut Prng, _t: Tier, i: usize, sink: &mut Sink) {
         sink.done(w);
         return;
     }
+    if p.chance(1, 3) {
+        w.exec(json!({"op":"place.policy","seed":p.next_u64()}));
+    }
     let nsess = p.range(1, 4);
     let mut queues = vec![];
     for k in 0..nsess {
